@@ -136,6 +136,8 @@ def run(ctx):
     ncorpus = len(cases)
     for _ in range(450 if quick else 3000):
         cases.append(gen_case(ctx.rng, quick))
+    # the exhaustive single-save slice of C02 (arrangements and pure reorders at every site): direct oracle
+    cases.extend(H.exhaustive_cases(1, 4) if quick else H.exhaustive_cases(3, 5))
     ctx.log('running %d constructor programs / edit histories on the implementation' % len(cases))
     results = H.run_cases(cases, pid=PID, content=True)
     usable = [(c, r) for c, r in zip(cases, results) if 'content' in r]
